@@ -31,17 +31,17 @@ def _wrap_add_sub_matrix(func, op):
     @wraps(func)
     def wrapper(a, b):
         if np.isscalar(b):
-            return MatrixOperator(op(a.A, b))
+            return MatrixOperator(op(a.A, b), input_cols=a.input_cols)
 
         if isinstance(b, MatrixOperator):
             if a.shape == b.shape:
-                return MatrixOperator(op(a.A, b.A))
+                return MatrixOperator(op(a.A, b.A), input_cols=a.input_cols)
 
             raise ValueError(f"MatrixOperator shapes {a.shape} and {b.shape} do not match.")
 
         if isinstance(b, (jnp.ndarray, np.ndarray)):
-            if a.matrix_shape == b.shape:
-                return MatrixOperator(op(a.A, b))
+            if a.A.shape == b.shape:
+                return MatrixOperator(op(a.A, b), input_cols=a.input_cols)
 
             raise ValueError(f"Shapes {a.matrix_shape} and {b.shape} do not match.")
 
@@ -109,7 +109,7 @@ class MatrixOperator(LinearOperator):
                     return self
 
                 if isinstance(other, MatrixOperator):
-                    return MatrixOperator(A=self.A @ other.A)
+                    return MatrixOperator(A=self.A @ other.A, input_cols=other.input_cols)
 
                 # must be a generic linop so return composition of the two
                 return LinearOperator(
@@ -148,23 +148,23 @@ class MatrixOperator(LinearOperator):
         return -self + other
 
     def __neg__(self):
-        return MatrixOperator(-self.A)
+        return MatrixOperator(-self.A, input_cols=self.input_cols)
 
     # Could write another wrapper for mul, truediv, and rtuediv, but there is
     # no operator.__rtruediv__;  have to write that case out manually anyway.
     def __mul__(self, other):
         if np.isscalar(other):
-            return MatrixOperator(other * self.A)
+            return MatrixOperator(other * self.A, input_cols=self.input_cols)
 
         if isinstance(other, MatrixOperator):
             if self.shape == other.shape:
-                return MatrixOperator(self.A * other.A)
+                return MatrixOperator(self.A * other.A, input_cols=self.input_cols)
 
             raise ValueError(f"Shapes {self.shape} and {other.shape} do not match.")
 
         if isinstance(other, (jnp.ndarray, np.ndarray)):
-            if self.matrix_shape == other.shape:
-                return MatrixOperator(self.A * other)
+            if self.A.shape == other.shape:
+                return MatrixOperator(self.A * other, input_cols=self.input_cols)
 
             raise ValueError(f"Shapes {self.matrix_shape} and {other.shape} do not match.")
 
@@ -177,16 +177,16 @@ class MatrixOperator(LinearOperator):
 
     def __truediv__(self, other):
         if np.isscalar(other):
-            return MatrixOperator(self.A / other)
+            return MatrixOperator(self.A / other, input_cols=self.input_cols)
 
         if isinstance(other, MatrixOperator):
             if self.shape == other.shape:
-                return MatrixOperator(self.A / other.A)
+                return MatrixOperator(self.A / other.A, input_cols=self.input_cols)
             raise ValueError(f"Shapes {self.shape} and {other.shape} do not match.")
 
         if isinstance(other, (jnp.ndarray, np.ndarray)):
-            if self.matrix_shape == other.shape:
-                return MatrixOperator(self.A / other)
+            if self.A.shape == other.shape:
+                return MatrixOperator(self.A / other, input_cols=self.input_cols)
 
             raise ValueError(f"Shapes {self.matrix_shape} and {other.shape} do not match.")
 
@@ -196,11 +196,11 @@ class MatrixOperator(LinearOperator):
 
     def __rtruediv__(self, other):
         if np.isscalar(other):
-            return MatrixOperator(other / self.A)
+            return MatrixOperator(other / self.A, input_cols=self.input_cols)
 
         if isinstance(other, (jnp.ndarray, np.ndarray)):
-            if self.matrix_shape == other.shape:
-                return MatrixOperator(other / self.A)
+            if self.A.shape == other.shape:
+                return MatrixOperator(other / self.A, input_cols=self.input_cols)
 
             raise ValueError(f"Shapes {other.shape} and {self.matrix_shape} do not match.")
 
